@@ -80,6 +80,11 @@ def gen_sig(rng, k):
             s.params.append((name, "slice", ty, [lt], None))
         elif c < 0.9:
             x, y = pick(), pick()
+            # a `'static` slot borrows from nothing that needs keeping alive, and must not hide the slots after it
+            if rng.random() < 0.2:
+                x = "static"
+            elif rng.random() < 0.1:
+                y = "static"
             s.params.append((name, "struct", "StL<'%s, '%s>" % (x, y), [x, y], ["p", "q"]))
         else:
             x, y = pick(), pick()
